@@ -252,3 +252,4 @@ META = {
     "assumptions": ["headroom domain |a|,|carry|,|x_prev| < 2^61 (DESIGN §4)"],
     "stubs": [],
 }
+THOROUGH_SAMPLE = 120
